@@ -123,3 +123,69 @@ SEEDS = [
 
 def seed_tokens(text):
     return lex(text).tokens
+
+
+# ---- seed texts split into token spellings with their separators -----------------------------
+import re as _re
+
+_PIECE = _re.compile(r"""
+    '[^']*' | "[^"]*" | //.*?// |
+    \.\.\. | <<< | >>> | <\* | \*> | << | >> | => | == | <> | != | <= | >= | \+= | -= | \*= | /= | %= | !> | -> |
+    [A-Za-z_][A-Za-z0-9_]*(?:\.\.\.)? | [0-9][0-9A-Za-z_.]* |
+    [-+*/%()\[\],;<>=!]
+""", _re.X)
+
+
+def seed_pieces(text):
+    """[(spelling, separator_after)] or None when the split disagrees with the real lexer"""
+    out = []
+    pos = 0
+    while pos < len(text):
+        m = _PIECE.match(text, pos)
+        if not m:
+            return None
+        sp = m.group(0)
+        pos = m.end()
+        j = pos
+        while j < len(text) and text[j] in " \t\r\n":
+            j += 1
+        out.append((sp, text[pos:j]))
+        pos = j
+    try:
+        toks = Lexer(text, "t").scan().tokens
+    except Exception:
+        return None
+    if len(toks) != len(out):
+        return None
+    for t, (sp, _) in zip(toks, out):
+        one = Lexer(sp, "t").scan().tokens
+        if len(one) != 1 or one[0].value != t.value or one[0].type != t.type:
+            return None
+    return out
+
+
+def layout_ok(ctx, gap):
+    """assume: gap (list of chars) is layout: whitespace, or a # comment ending in LF"""
+    ws = " \t\r\n"
+
+    def is_ws(c):
+        r = (c == ws[0])
+        for w in ws[1:]:
+            r = r | (c == w)
+        return r
+    n = len(gap)
+    if n == 0:
+        return
+    if n == 1:
+        ctx.assume(is_ws(gap[0]))
+        return
+    if n == 2:
+        ctx.assume((is_ws(gap[0]) & is_ws(gap[1])) | ((gap[0] == "#") & (gap[1] == "\n")))
+        return
+    if n == 3:
+        a, b, c = gap
+        allws = is_ws(a) & is_ws(b) & is_ws(c)
+        ctx.assume(allws | ((a == "#") & (b == "\n") & is_ws(c)) | (is_ws(a) & (b == "#") & (c == "\n"))
+                   | ((a == "#") & (b != "\n") & (c == "\n")))
+        return
+    raise ValueError("gap too long")
